@@ -119,6 +119,10 @@ class Agent:
             # a partial last row: drop up to `cut` trailing bindings, never into the first row
             keep = max(len(rows[0]), len(flat) - cut)
             flat = flat[:keep]
+        if pol.get("maxvb"):
+            # a message-size limit: at most `maxvb` bindings per response (at least one), whatever
+            # was asked for — the answers to completion requests are cut in the same way
+            return (out + flat)[: max(1, pol["maxvb"])]
         return out + flat
 
     def answer_pdu(self, pdu):
@@ -273,6 +277,10 @@ class Agent:
             key = U.localise(user["auth"][0], user["priv"][1], v3.engine_id)
             self._salt = getattr(self, "_salt", 0) + 1
             priv_params = b"AG" + self._salt.to_bytes(6, "big")
+            if user.get("pad"):
+                # block ciphers (DES, RFC 3414 8.1.1.2) pad the scoped PDU to a multiple of the block
+                # size; the receiver has to ignore the octets behind the scoped PDU
+                scoped = scoped + bytes((7 * k + 3) % 256 for k in range((-len(scoped)) % user["pad"] or user["pad"]))
             ks = VS.keystream(key, v3.engine_id, boots, time_, priv_params, len(scoped))
             msg_data = B.tlv(4, bytes(a ^ b for a, b in zip(scoped, ks)), self.form)
         auth_params = b"\x00" * 12 if flags & 1 else b""
